@@ -43,7 +43,8 @@ def tag_prefix(a: Str, b: Str) -> Bool:
 
 @spec
 def is_step_name(s: Str) -> Bool:
-    """normalised absolute posix path: starts with '/', no empty / '.' / '..' segment, no trailing '/'"""
+    """normalised absolute posix path: '/' itself (the step of a single-tool document), or '/seg/seg...' with no empty, '.' or '..'
+    segment and no trailing '/'"""
 
 
 @spec
